@@ -10,43 +10,52 @@ From DV Require Import RightsP Run_C01 C01P Run_C02 C02P Run_C12 C12P.
    local path refuses some peer-side check refuses too (Run_C12.violations12 finds nothing). *)
 Definition C12_full : Prop := forall c, violations12 c (run_C12 c) = [].
 
-(* The unchanged code violates it: closed witnesses, one per class (replayed against the real code
-   by the harness as directed cases): 1 explicit null stored as "short":null, 2 scalar in a Json
-   field (by literal, by default), 3 a mutation removing another author's reference with the
-   own-rows right only (accepted locally, the tombstone is refused by peers) *)
+(* The current code still violates it in one delimited way (closed witnesses, replayed against the
+   real code by the harness as directed cases 1 and 2): class 2, a scalar in a Json field (by
+   literal, by default) is accepted locally and refused by peers *)
 Theorem C12_refuted :
-  violations12 w12_null (run_C12 w12_null) = [1] /\
   violations12 w12_scalar (run_C12 w12_scalar) = [2] /\
-  violations12 w12_scalar_default (run_C12 w12_scalar_default) = [2] /\
-  violations12 w12_ref (run_C12 w12_ref) = [3] /\ run_C12 w12_ref = [0; 1; 1; 1].
+  violations12 w12_scalar_default (run_C12 w12_scalar_default) = [2].
 Proof. exact witnesses12. Qed.
 Print Assumptions C12_refuted.
 
-(* the two validation functions agree on a row: for ANY rooms, caller and mutation head of an
-   ordinary entity that writes a row into a room, the local head check passes iff the peer's
-   validate_node passes on the row as received, with the old room / old author the peer reads
-   from its identical copy *)
-Theorem C12_row_verdicts_agree : forall me rooms h rid,
+(* The witnesses of the classes repaired by d170035 / 8ac9d00 (explicit null) and 25ca1a0 (removal of
+   another author's reference with the own-rows right) now get the same verdict on both sides:
+   the null is stored and accepted by peers; the removal is refused locally as peers refuse it *)
+Theorem C12_repaired_witnesses_hold :
+  run_C12 w12_null = [1; 1; 4; 0; 0] /\ violations12 w12_null (run_C12 w12_null) = [] /\
+  run_C12 w12_ref = [1; 1; 1; 1] /\ violations12 w12_ref (run_C12 w12_ref) = [].
+Proof. exact repaired_witnesses12. Qed.
+Print Assumptions C12_repaired_witnesses_hold.
+
+(* the two validation functions agree on a row: for ANY rooms, caller, time and mutation head of
+   an ordinary entity that writes a row into a room, the local head check passes iff the peer's
+   validate_node passes on the row as received (with the old room / old author the peer reads from
+   its identical copy) and the removed references pass the local check in the room entered *)
+Theorem C12_row_verdicts_agree : forall me now rooms h rid,
   h_kind h = KNormal -> h_has_node h = true -> h_room h = Some rid ->
-  (check_head me rooms h = None <->
-   validate_node rooms (sent_row me h) (old_room_of h) (old_author_of h) = true).
+  (check_head me now rooms h = None <->
+   validate_node rooms (sent_row me h) (old_room_of h) (old_author_of h) = true /\
+   match find_room rooms rid with Some r => dels_ok me now r h = true | None => False end).
 Proof. exact node_agree. Qed.
 Print Assumptions C12_row_verdicts_agree.
 
-(* one-row write (create / update / move), any number of added references, removing references
-   the caller wrote itself: every room history, caller, date: no disagreement *)
-Theorem C12_write_holds : forall defs dm me h nadd rm,
-  h_kind h = KNormal -> peer_knows dm (h_ent h) = true -> forallb (N.eqb me) rm = true ->
-  violations12 (CWrite defs dm me h nadd rm) (run_C12 (CWrite defs dm me h nadd rm)) = [].
+(* the peer's verdict on the tombstone of a removed reference is the local check of that removal *)
+Theorem C12_tombstone_verdict : forall defs me h rid r p,
+  find_room (build_rooms defs) rid = Some r -> In p (numbered 0%N (h_edge_dels h)) ->
+  edel_ok (build_rooms defs) (peer_store h (h_edge_dels h)) (ref_tombstone me rid (h_date h) (stored_ref h p)) =
+  can r me (h_ent h) (h_date h) (needed (N.eqb (snd p) me)).
+Proof. exact tombstone_verdict. Qed.
+Print Assumptions C12_tombstone_verdict.
+
+(* one-row write (create / update / move), any number of added references, removal of references of
+   ANY authors: every room history, caller, date: no disagreement (full strength; the class 3 of the
+   first round is gone) *)
+Theorem C12_write_holds : forall defs dm me h nadd,
+  h_kind h = KNormal -> peer_knows dm (h_ent h) = true ->
+  violations12 (CWrite defs dm me h nadd) (run_C12 (CWrite defs dm me h nadd)) = [].
 Proof. exact write_agree. Qed.
 Print Assumptions C12_write_holds.
-
-(* ... removing references of any authors: the only possible disagreement is class 3 *)
-Theorem C12_write_outside_known : forall defs dm me h nadd rm v,
-  h_kind h = KNormal -> peer_knows dm (h_ent h) = true ->
-  In v (violations12 (CWrite defs dm me h nadd rm) (run_C12 (CWrite defs dm me h nadd rm))) -> v = 3.
-Proof. exact write_outside_known. Qed.
-Print Assumptions C12_write_outside_known.
 
 (* deletion of a row (the API takes the deletion date and `now` from the same clock) *)
 Theorem C12_delete_row_holds : forall defs me now n,
@@ -61,9 +70,9 @@ Theorem C12_delete_reference_holds : forall defs me now src ea,
 Proof. exact delete_reference_agree. Qed.
 Print Assumptions C12_delete_reference_holds.
 
-(* field values: outside classes 1 and 2 (no explicit null; no scalar in a Json field, by literal or
-   by default; defaults of the declared type) whatever creation request the local parser accepts
-   yields JSON content every peer's validate_json_for_entity accepts — any entity, any literals *)
+(* field values: outside class 2 (no scalar in a Json field, by literal or by default; defaults of
+   the declared type) whatever creation request the local parser accepts — explicit nulls included —
+   yields JSON content every peer's validate_json_for_entity accepts: any entity, any literals *)
 Theorem C12_json_outside_known : forall fs lits,
   NoDup (map short_of fs) ->
   forallb (fun f => lit_clean f (lget lits (short_of f))) fs = true ->
@@ -72,11 +81,11 @@ Theorem C12_json_outside_known : forall fs lits,
 Proof. exact json_agree. Qed.
 Print Assumptions C12_json_outside_known.
 
-(* hypotheses are satisfiable: a move between rooms with references added and removed is accepted
-   on both sides; a foreign row with the own-rows right is refused on both; an integer literal
-   for a Float field is accepted and stored as a float *)
+(* hypotheses are satisfiable: a move between rooms with two references added, an own and a foreign
+   reference removed under the all-rows right is accepted on both sides; a foreign row with the
+   own-rows right is refused on both; an integer literal for a Float field is stored as a float *)
 Example C12_nonvacuous :
-  run_C12 w12_ok = [0; 1; 2; 1] /\ spec_C12 w12_ok (run_C12 w12_ok) = true /\
+  run_C12 w12_ok = [0; 1; 2; 2] /\ spec_C12 w12_ok (run_C12 w12_ok) = true /\
   run_C12 w12_refused = [1; 0; 1; 0] /\ spec_C12 w12_refused (run_C12 w12_refused) = true /\
   run_C12 (CJson [fld 32 TString false None; fld 33 TFloat true None] [(32%N, LStr false None); (33%N, LInt)]) = [1; 1; 4; 3].
 Proof. exact nonvacuous12. Qed.
